@@ -61,7 +61,9 @@ def build(kind, start, every, d=1, ncomp=1, time_first=False, system=False, odd=
         class Eq(ODE):
             idx: int = eqx.field(static=True, default=0)
             def equation(self, t, ud, pd):
-                return jnp.array([psi(self.idx)((1.0 + self.idx) * ud["a"](t, pd.extract_params("a"))[0] + ud["b"](t, pd.extract_params("b"))[0] + 0.5 * sc(t))])
+                # two residuals of different size and landscape (the ranking by their SUM of squares is not the ranking by either alone)
+                return jnp.array([(1.0 + 2.0 * self.idx) * psi(self.idx)((1.0 + self.idx) * ud["a"](t, pd.extract_params("a"))[0]
+                                                                            + (1.0 - 2.0 * self.idx) * ud["b"](t, pd.extract_params("b"))[0] + (0.5 - 2.5 * self.idx) * sc(t))])
         params = ParamsDict(nn_params={k: nets[k].init_params() for k in nets}, eq_params={"kappa": jnp.array(1.3)})
         loss = SystemLossODE(u_dict=nets, dynamic_loss_dict={"e1": Eq(idx=1, Tmax=1), "e0": Eq(idx=0, Tmax=1)},
                              loss_weights=LossWeightsODEDict(dyn_loss=1.0, initial_condition=1.0, observations=1.0), params_dict=params)
